@@ -61,8 +61,49 @@ fn c20_crowd(case: u64) {
     }
 }
 
+/// All threads send requests of the *same* listed sender through clones at the same moment (a
+/// listed sender is listed whoever else of its requests is being authorized right now), with an
+/// unlisted sender's requests in between.
+fn c20_same_sender(case: u64) {
+    use anemo_tower::auth::{AllowedPeers, RequireAuthorizationLayer};
+    let threads = 2 + (case % 2) as u8;
+    let served = Arc::new(AtomicU64::new(0));
+    let s2 = served.clone();
+    let inner = tower::service_fn(move |_req: Request<Bytes>| {
+        s2.fetch_add(1, SeqCst);
+        async move { Ok::<_, std::convert::Infallible>(Response::new(Bytes::from_static(b"served"))) }
+    });
+    let svc = RequireAuthorizationLayer::new(AllowedPeers::new([peer(1), peer(2), peer(3)])).layer(inner);
+    let mut hs = Vec::new();
+    for t in 0..threads {
+        let svc = svc.clone();
+        hs.push(std::thread::spawn(move || {
+            let mut accepted = 0u64;
+            for round in 0..5u8 {
+                let sender = if round == 3 { peer(200 + t) } else { peer(2) };
+                let resp = futures::executor::block_on(svc.clone().oneshot(Request::new(Bytes::new()).with_extension(sender))).unwrap();
+                let want = if round == 3 { StatusCode::NotFound } else { StatusCode::Success };
+                if resp.status() != want {
+                    violation("allow-list-verdict-wrong", format!("round {round} of thread {t}: sender {} got {:?}, expected {want:?} (all threads send requests of listed sender 2 at the same moment)", sender.0[0], resp.status()));
+                }
+                if want == StatusCode::Success {
+                    accepted += 1;
+                }
+            }
+            accepted
+        }));
+    }
+    let accepted: u64 = hs.into_iter().map(|h| h.join().unwrap()).sum();
+    if served.load(SeqCst) != accepted {
+        violation("service-invocations-differ-from-acceptances", format!("served {}, accepted {accepted}", served.load(SeqCst)));
+    }
+}
+
 fn c20(case: u64) {
     use anemo_tower::auth::{AllowedPeers, RequireAuthorizationLayer};
+    if case >= 38 {
+        return c20_same_sender(case);
+    }
     if case >= 36 {
         return c20_crowd(case);
     }
